@@ -31,7 +31,7 @@ def be_l1_ob(be, k, m, hd, sets, w=1, band=False, singular=False, split=None, ta
     return ob
 
 
-def l2_ob(be, k, m, hd, order, ln=None, mode=1, force=0, expect=1, dest=0, ct=1, dmg=0, dmgpos=0, hdrdmg=None, uf=False, tag="l2", leak=False, timeout=900, mem=3):
+def l2_ob(be, k, m, hd, order, ln=None, mode=1, force=0, expect=1, dest=0, ct=1, dmg=0, dmgpos=0, unalign=0, hdrdmg=None, uf=False, tag="l2", leak=False, timeout=900, mem=3):
     unit = k * WB[be]
     if ln is None:
         ln = unit + 1
@@ -39,6 +39,8 @@ def l2_ob(be, k, m, hd, order, ln=None, mode=1, force=0, expect=1, dest=0, ct=1,
     if force and ct == 2 and mode == 1:
         uf = True     # forced checks: checksum verdicts must stay concrete for symex (constant-abstracted CRCs, see l2.c UFCONST)
     defs = dict(BE=be, K=k, M=m, HD=hd, CT=ct, LEN=ln, ORDER=",".join(map(str, order)), MODE=mode, FORCE=force, EXPECT=expect, DEST=dest)
+    if unalign:
+        defs["UNALIGN"] = unalign
     if dmg:
         defs["DMG"] = dmg
         defs["DMGPOS"] = dmgpos
@@ -50,7 +52,7 @@ def l2_ob(be, k, m, hd, order, ln=None, mode=1, force=0, expect=1, dest=0, ct=1,
         defs["UFCRC"] = None
         if dmg or (force and hdrdmg is None): defs["UFCONST"] = None
     units = (uf_units() if uf else real_crc_units()) + ["ref_format", "xor_eq"]
-    oid = f"{tag}-{BNAME[be]}{k}_{m}_{hd}-ct{ct}-len{ln}-m{mode}f{force}-o{'.'.join(map(str, order))}" + (f"-d{dest}" if mode == 2 else "") + (f"-dmg{dmg}p{dmgpos}" if dmg else "") + (f"-h{hdrdmg[0]}f{hdrdmg[1]}" + (f"v{hdrdmg[2]}" if len(hdrdmg) > 2 else "") if hdrdmg else "") + ("-uf" if uf else "") + (f"-e{expect}" if expect != 1 else "")
+    oid = f"{tag}-{BNAME[be]}{k}_{m}_{hd}-ct{ct}-len{ln}-m{mode}f{force}-o{'.'.join(map(str, order))}" + (f"-d{dest}" if mode == 2 else "") + (f"-dmg{dmg}p{dmgpos}" if dmg else "") + (f"-ua{unalign}" if unalign else "") + (f"-h{hdrdmg[0]}f{hdrdmg[1]}" + (f"v{hdrdmg[2]}" if len(hdrdmg) > 2 else "") if hdrdmg else "") + ("-uf" if uf else "") + (f"-e{expect}" if expect != 1 else "")
     ob = Ob(id=oid, harness="l2.c", defs=defs, units=units, unwind=max(8, k + m + 3, size + 3), timeout=timeout, mem_gb=mem,
             unwindset=dict({f"main.{i}": size + 84 for i in range(16)}, **{"ref_header.0": 84, "crc_run.0": 84, "crc_run.1": 84, "crc32.0": 84, "crc32.1": 84,
                             "ec_init_tables.0": 40, "ec_init_tables.1": 40, "ec_init_tables.2": 40, "uf_lookup.0": 30}),
